@@ -175,9 +175,14 @@ class Cell:
                                 dsp.add_data(k, filters=f)
                             except ValueError:
                                 dsp.add_data(k)
+                kw = {}
+                if not inputs:
+                    # A formula without references is as weak as a constant:
+                    # a value supplied through a range or a name must win.
+                    kw['weight'] = sh.inf(1, 0)
                 nodes.add(dsp.add_function(
                     self.__name__, self.func, inputs or None, [output],
-                    filters=[replace_empty]
+                    filters=[replace_empty], **kw
                 ))
         return nodes
 
